@@ -116,6 +116,15 @@ def worker_obligations(pid, mir_text, info, add, violations, inconclusive, only_
         info.setdefault("notes", []).append("on_demand.rs worker closure (blocks on a control channel, nested loop) is not encoded")
 
 
+def initial_depth(name, mir_text):
+    try:
+        return blockloop.initial_depth(name, mir_text)
+    except Unsupported as e:
+        if "was not found" not in str(e):
+            raise
+        return spawnflow.initial_depth_in_spawn(name, mir_text)
+
+
 def depth_obligations(pid, mir_text, info, add, violations, inconclusive):
     """Depth-limit obligations on check_block of bfs.rs/dfs.rs (blockloop.py)."""
     cbs = blockloop.find_check_blocks(mir_text)
@@ -125,7 +134,7 @@ def depth_obligations(pid, mir_text, info, add, violations, inconclusive):
     info["check_block"] = {}
     for name in ("bfs", "dfs"):
         res, binfo = blockloop.obligations(name, cbs[name], helpers=blockloop.find_helpers(mir_text, name))
-        res = res + blockloop.initial_depth(name, mir_text)
+        res = res + initial_depth(name, mir_text)
         binfo["mir_sha256"] = hashlib.sha256(cbs[name].encode()).hexdigest()[:12]
         info["check_block"][name] = binfo
         info["functions_encoded"].append(f"checker::{name}::check_block (MIR sha256 {binfo['mir_sha256']}, {binfo['blocks']} basic blocks, {binfo['round_paths']} paths per job, inner loops {binfo['inner_loops_havocked']} abstracted by havoc)")
@@ -379,7 +388,7 @@ def run(pid, tier, seed, replay_path=None):
             info["spawn"] = {"bfs": sinfo}
             info["functions_encoded"].append(f"checker::bfs spawn() ({sinfo['blocks']} basic blocks, loops {sinfo['loops_havocked']} havocked, {sinfo['paths']} paths)")
             sres = [o for o in sres if "one batch" in o["obligation"] or "thread_count" in o["obligation"]]
-            allres = res + blockloop.initial_depth("bfs", mir_text) + sres + checks.single_thread_broker(bm) + [checks.bfs_order_induction()]
+            allres = res + initial_depth("bfs", mir_text) + sres + checks.single_thread_broker(bm) + [checks.bfs_order_induction()]
             for o in allres:
                 if "target_max_depth" in o["obligation"] and "skipped only" in o["obligation"]:
                     pass  # D1 belongs to C12 but is harmless here: kept, it is part of what makes depth labels meaningful
